@@ -38,7 +38,9 @@ def RULE(tier):
 def plan(tier, seed):
     t = []
     for (n, c) in sorted(oconn.CONFIGS, key=lambda x: -x[0]):
-        t.append(("basis", n, c, seed))
+        t.append(("basis", n, c, seed, 0))
+        if n <= 4 or tier == "thorough":
+            t.append(("basis", n, c, seed, 1))
         k = (6 if n <= 5 else 3) if tier == "quick" else 100
         step = 3 if n == 6 else 10
         for i in range(0, k, step):
@@ -46,21 +48,33 @@ def plan(tier, seed):
     return t
 
 
-def circuits_for(n, conn, prep=None):
+def circuits_for(n, conn, prep=None, user_metadata=False):
+    """user_metadata: the caller's preparation circuit carries its own (non-empty) metadata - legal, and it
+    must neither disturb the readout information nor be modified."""
     from qiskit import QuantumCircuit
     from htstabilizer.tomography import full_state_tomography_circuits
-    return call(full_state_tomography_circuits, prep if prep is not None else QuantumCircuit(n), conn)
+    if prep is None:
+        prep = QuantumCircuit(n)
+    if user_metadata:
+        prep.metadata = {"experiment": "tomography-%d" % n, "shots": 4096}
+    ok, circs = call(full_state_tomography_circuits, prep, conn)
+    if ok and user_metadata and prep.metadata != {"experiment": "tomography-%d" % n, "shots": 4096}:
+        return False, RuntimeError("the caller's preparation circuit's metadata was modified: %r" % (sorted(prep.metadata),))
+    return ok, circs
 
 
 def work_basis(task, p):
     from htstabilizer.tomography import FullStateTomographyFitter
-    _, n, conn, seed = task
+    n, conn, seed = task[1], task[2], task[3]
     case = {"kind": "basis", "n": n, "conn": conn}
     key = "tomography n=%d conn=%s " % (n, conn)
-    ok, circs = circuits_for(n, conn)
+    user_md = bool(task[4]) if len(task) > 4 else False
+    case["user_metadata"] = user_md
+    p.counters["basis pass, preparation circuit %s user metadata" % ("with" if user_md else "without")] += 1
+    ok, circs = circuits_for(n, conn, user_metadata=user_md)
     if not ok:
         p.evals += 1
-        p.violate(key + "circuits-raise", "full_state_tomography_circuits raised %s" % exc_name(circs), case)
+        p.violate(key + "circuits-raise", "full_state_tomography_circuits raised %s: %s" % (exc_name(circs), str(circs)[:160]), case)
         return
     K = 4 ** n
     counts = [tomo.basis_counts(c, n) for c in circs]
@@ -146,10 +160,10 @@ def work_dense(task, p):
             rho = tomo.rand_state(n, rng, kind)
             prep = None
             init = rho
-        ok, circs = circuits_for(n, conn, prep)
+        ok, circs = circuits_for(n, conn, prep, user_metadata=(i % 2 == 1))
         p.evals += 1
         if not ok:
-            p.violate(key + "circuits-raise", "full_state_tomography_circuits raised %s" % exc_name(circs), case)
+            p.violate(key + "circuits-raise", "full_state_tomography_circuits raised %s: %s" % (exc_name(circs), str(circs)[:160]), case)
             continue
         counts = [tomo.dense_counts(c, init, n, shots=(None, 4096)[i % 2]) for c in circs]
         f = FullStateTomographyFitter(tomo.FakeResult(counts), circs)
@@ -191,7 +205,7 @@ def finalize(total, tier, seed):
 def replay(cj):
     p = Partial()
     if cj["kind"] == "basis":
-        work_basis(("basis", cj["n"], cj["conn"], 0), p)
+        work_basis(("basis", cj["n"], cj["conn"], 0, int(bool(cj.get("user_metadata")))), p)
     else:
         work_dense(("dense", cj["n"], cj["conn"], cj["index"] + 1, cj["seed"]), p)
     return p.violations
